@@ -8,7 +8,9 @@ some sub-plans have an extra input below a static tree.  Histories: change / del
 source or such a plan input, switch a plan script to another version (children dropped, added,
 re-added: recycle), no-op.  Compared per build with the model run inside Coq: the set of steps
 (plans included) whose command ran, the set skipped, for every definition of the universe whether
-it is attached and whether it is attached and SUCCEEDED, which outputs changed."""
+it is attached and whether it is attached and SUCCEEDED, which outputs changed; and the final
+sources built FROM SCRATCH by the real system versus the model's build on nothing (attached and
+SUCCEEDED sets); the hypotheses of the theorems (wf_u, ustat_later_b) hold for every universe."""
 from __future__ import annotations
 
 import random
@@ -187,7 +189,7 @@ def correspondence_plan(ctx):
         labels = {e["label"]: e["id"] for e in ents}
         phases = []
         ran_any = dropped_any = readded_any = kept_any = False
-        ever, prev_att = set(), set()
+        ever, prev_att, prev_succ = set(), set(), set()
         for k, res in enumerate(results):
             ran = {c["label"] for c in res.commands if c["label"] in labels}
             skipped = {e[1] for e in res.events if e[0] == "SKIP" and e[1] in labels}
@@ -204,14 +206,15 @@ def correspondence_plan(ctx):
             est = [f"({labels[l]}, {common.coq_bool(l in succ)})" for l in sorted(labels)]
             src, env = worlds[k]
             prev = results[k - 1].files if k > 0 else {}
-            # outputs of the steps attached after this build and after the previous one (a detached
-            # step's files are removed by the cleanup pass; the model keeps them out of sight)
-            outs = sorted(p for e in ents for p in e["out"] if e["label"] in att and e["label"] in prev_att)
+            # outputs of the steps attached and SUCCEEDED after this build and after the previous one
+            # (the files of a detached step are removed by the cleanup pass and a step that came back
+            # PENDING has none, while the model keeps the old bytes out of sight)
+            outs = sorted(p for e in ents for p in e["out"] if e["label"] in succ and e["label"] in prev_succ)
             chg = [f"({pid[p]}, {common.coq_bool(res.files.get(p) != prev.get(p))})" for p in outs]
             phases.append(f"(({common.coq_list([f'({a}, {b})' for a, b in src])}, [], "
                           f"{common.coq_list(log)}, {common.coq_list(est)}, {common.coq_list(chg)}), "
                           f"{common.coq_list(eatt)})")
-            prev_att = att
+            prev_att, prev_succ = att, succ
             ctx.count("plan_builds")
             ctx.count("plan_steps_run", len(ran))
         uni = common.coq_list([
@@ -219,7 +222,18 @@ def correspondence_plan(ctx):
             f"{common.coq_list([str(pid[p]) for p in e['out']])}) {e['cr']['id'] if e['cr'] else 0} "
             f"{common.coq_list([str(pid[p]) for p in e.get('statics', [])])}" for e in ents])
         tabt = common.coq_list([f"({a}, {b}, {common.coq_list([str(x) for x in c])})" for a, b, c in tab])
-        term = f"let U := {uni} in wf_u U && check_hist_p {tabt} U (p_empty U) {common.coq_list(phases)}"
+        # the final sources built from scratch by the real system, and by the model on nothing
+        scr = e3.scratch_of_history(project, history, timeout=40)
+        snodes = e3.parse_graph(scr.graph)
+        satt = {l for l in labels if _attached(snodes, l)[0]}
+        ssucc = {l for l in satt if _attached(snodes, l)[1] == "SUCCEEDED"}
+        src, _ = worlds[-1]
+        scratch = (f"check_scratch_p {tabt} U {common.coq_list([f'({a}, {b})' for a, b in src])} [] "
+                   f"{common.coq_list([f'({labels[l]}, {common.coq_bool(l in satt)})' for l in sorted(labels)])} "
+                   f"{common.coq_list([f'({labels[l]}, {common.coq_bool(l in ssucc)})' for l in sorted(labels)])}")
+        ctx.count("plan_scratch_builds")
+        term = (f"let U := {uni} in wf_u U && ustat_later_b U && "
+                f"check_hist_p {tabt} U (p_empty U) {common.coq_list(phases)} && {scratch}")
         checks.append(term)
         meta.append((project, history, term))
         ctx.case(("engine-plan", i, term), nontrivial=ran_any and kept_any)
@@ -230,7 +244,7 @@ def correspondence_plan(ctx):
     ctx.traces_validated += len(checks) - len(bad)
     for b in bad[:3]:
         project, history, term = meta[b]
-        t2 = term.replace("wf_u U && check_hist_p", "trace_hist_p")
+        t2 = term.split(" && check_scratch_p")[0].replace("wf_u U && ustat_later_b U && check_hist_p", "trace_hist_p")
         got = common.eval_terms(ctx, "plandiag", HEADER, [t2])
         ctx.add_failure("correspondence", "E3:EnginePlan", "E3:EnginePlan:executed-skipped-attached-set",
                         "model/EnginePlan.v and the real system disagree on which steps ran, were skipped, "
